@@ -548,6 +548,31 @@ class Scalar(Qube):
         return obj
 
     #===========================================================================
+    def _func_of_unmasked(self, func, safe, message):
+        """Internal method used by the check=False/nozeros=True paths after
+        func(values) has tripped a warning: re-evaluate the function with the
+        values underneath the mask replaced by a safe constant, so that only
+        an unmasked value can make the method raise a ValueError. Must be
+        called with warnings converted to errors.
+        """
+
+        if not np.any(self._mask_):
+            raise ValueError(message)
+
+        if np.shape(self._mask_):
+            values = self._values_.copy()
+            values[self._mask_] = safe
+        elif np.shape(self._values_):
+            values = np.full(np.shape(self._values_), safe)
+        else:
+            values = safe
+
+        try:
+            return func(values)
+        except (ZeroDivisionError, RuntimeWarning):
+            raise ValueError(message)
+
+    #===========================================================================
     def sqrt(self, recursive=True, check=True):
         """Return the square root, masking imaginary values.
 
@@ -577,7 +602,8 @@ class Scalar(Qube):
                 try:
                     sqrt_vals = np.sqrt(no_negs._values_)
                 except RuntimeWarning:
-                    raise ValueError('Scalar.sqrt() of negative value')
+                    sqrt_vals = self._func_of_unmasked(np.sqrt, 1.,
+                                        'Scalar.sqrt() of negative value')
 
         obj = Scalar(sqrt_vals, mask=no_negs._mask_,
                                 units=Units.sqrt_units(no_negs._units_))
